@@ -5,6 +5,7 @@ import PowHsm.Spec.C05
 import PowHsm.Proofs.Chunks
 import PowHsm.Proofs.Blocks
 import PowHsm.Proofs.RlpCodec
+import PowHsm.Proofs.BlockSuccess
 namespace PowHsm
 namespace Props.C05
 open Dongle M
@@ -257,6 +258,28 @@ example :
     let x : Rlp := .list (List.replicate 17 (.str [7]))
     (Rlp.enc x).length < 2 ^ 64 ∧ Block.removeMM (Rlp.enc x) true = some (Rlp.enc x) := by
   decide +kernel
+
+/-- **the reply is 0 / 1 only when the device reported total / partial success**, for every request and
+    every device behaviour: a block operation reports success only with the OK_TOTAL code — which the
+    block loop takes exactly when the device's answer after a block names the success operation — or, for
+    advance, the OK_PARTIAL code (the answer names the partial-success operation); and the reply codes 0 and
+    1 are the translations of OK_TOTAL and OK_PARTIAL and of no other result (`Proofs/BlockSuccess.lean`) -/
+theorem success_only_with_ok_codes (h : Hashes) (blocks : List (Option Bytes))
+    (brothers : List (List (Option Bytes))) (w : World) (code : Int) :
+    ((advanceBlockchain h blocks brothers w).val = .ok (true, code) →
+      code = Generated.AdvanceResponse_OK_TOTAL ∨ code = Generated.AdvanceResponse_OK_PARTIAL) ∧
+    ((updateAncestor h blocks w).val = .ok (true, code) → code = Generated.UpdateAncestorResponse_OK_TOTAL) :=
+  ⟨advanceBlockchain_success h blocks brothers w code, updateAncestor_success h blocks w code⟩
+
+theorem reply_zero_one_iff (code : Int) :
+    (Tbl.dictGet Generated.translateAdvance code Generated.translateAdvanceDefault = 0 ↔
+      code = Generated.AdvanceResponse_OK_TOTAL) ∧
+    (Tbl.dictGet Generated.translateAdvance code Generated.translateAdvanceDefault = 1 ↔
+      code = Generated.AdvanceResponse_OK_PARTIAL) ∧
+    (Tbl.dictGet Generated.translateUpdate code Generated.translateUpdateDefault = 0 ↔
+      code = Generated.UpdateAncestorResponse_OK_TOTAL) ∧
+    Tbl.dictGet Generated.translateUpdate code Generated.translateUpdateDefault ≠ 1 :=
+  ⟨(advance_zero_one code).1, (advance_zero_one code).2, (update_zero_one code).1, (update_zero_one code).2⟩
 
 end Props.C05
 end PowHsm
